@@ -395,6 +395,9 @@ func runC20(c *vf.Ctx) {
 }
 
 func replayC20(c *vf.Ctx, data json.RawMessage) {
+	if c20FlightReplay(c, data) {
+		return
+	}
 	var cs c20Case
 	if err := json.Unmarshal(data, &cs); err != nil || cs.Scenario == "" {
 		c.Note("C20 replay: case not understood: %v", err)
